@@ -565,6 +565,361 @@ Proof.
 Qed.
 End RP2.
 
+(* ---------- completeness: the reference verifier accepts conformant presentations ---------- *)
+Section RA.
+Variable H : string -> string.
+Variable enc : list json -> string.
+Variable T : rtable.
+Notation blind := (blind H enc).
+Notation proj := (proj H enc).
+Notation wf := (wf H enc).
+Notation hdigs := (hdigs H enc).
+Notation alldigs := (alldigs H enc).
+Notation dig_item := (dig_item H enc).
+Notation dig_mem := (dig_mem H enc).
+Notation IsNode := (IsNode H enc).
+Notation hdigs_item := (hdigs_item H enc).
+Notation hdigs_mem := (hdigs_mem H enc).
+Notation adigs_item := (adigs_item H enc alldigs).
+Notation adigs_mem := (adigs_mem alldigs).
+Notation bitem := (bitem H enc).
+Notation bmem := (bmem H enc).
+Notation table_ok := (table_ok H enc T).
+Notation stepA := (stepA T).
+Notation stepP := (stepP T).
+Notation stepD := (stepD T).
+
+Lemma use_digest_fresh g u : ~ In g u -> use_digest g u = Some (g :: u).
+Proof.
+  intros Hn. unfold use_digest. destruct (existsb (String.eqb g) u) eqn:E; [|reflexivity].
+  exfalso. apply existsb_exists in E as [x [Hx Hq]]. apply String.eqb_eq in Hq. subst x. contradiction.
+Qed.
+
+(* with enough fuel and no digest of the subtree used yet, the reference verifier accepts the subtree and
+   uses only digests of the subtree *)
+Definition accept_at (s : atree) : Prop :=
+  forall fuel u, aheight s <= fuel -> (forall g, In g (alldigs s) -> ~ In g u) ->
+  exists j u', rprocess fuel T (blind s) u = Some (j, u') /\ (forall g, In g u' -> In g u \/ In g (alldigs s)).
+
+Definition item_factA (it : ikind * atree) : Prop :=
+  let '(k, s) := it in
+  match k with
+  | IPlain => wf s /\ accept_at s
+  | IHid salt => wf s /\ accept_at s /\ forall r, rlookup (dig_item salt s) T = Some r -> r = RElement (blind s)
+  | IDecoy g0 => rlookup g0 T = None end.
+
+Lemma foldA_accept fuel : forall items out u,
+  Forall item_factA items -> NoDup (flat_map adigs_item items) ->
+  (forall g, In g (flat_map adigs_item items) -> ~ In g u) ->
+  Forall (fun it : ikind * atree => match fst it with IDecoy _ => True | _ => aheight (snd it) <= fuel end) items ->
+  exists out' u', fold_left (stepA fuel) (map bitem items) (Some (out, u)) = Some (out', u') /\
+                  (forall g, In g u' -> In g u \/ In g (flat_map adigs_item items)).
+Proof.
+  induction items as [|[k s] r IH]; intros out u HF Hnd Hdis Hht.
+  - exists out, u. split; [reflexivity|auto].
+  - inversion HF as [|? ? Hit HFr]; subst. inversion Hht as [|? ? Hh1 Hhr]; subst. cbn [fst snd] in Hh1.
+    cbn [flat_map] in Hnd, Hdis. pose proof (NoDup_app_l _ _ Hnd) as Hnd1. pose proof (NoDup_app_r _ _ Hnd) as Hndr.
+    assert (Hrest : forall u1, (forall g, In g u1 -> In g u \/ In g (adigs_item (k, s))) ->
+                     forall g, In g (flat_map adigs_item r) -> ~ In g u1).
+    { intros u1 Hu1 g Hg Hin. destruct (Hu1 g Hin) as [Hu|Ha].
+      - apply (Hdis g); [apply in_or_app; right; assumption|assumption].
+      - exact (NoDup_app_disj _ _ g Hnd Ha Hg). }
+    cbn [map fold_left]. destruct k as [|salt|g0]; cbn [T1b.bitem]; cbn [item_factA] in Hit.
+    + destruct Hit as [Hws Hacc]. unfold RefProofs.stepA at 2. rewrite (single_placeholder_blind H enc s Hws).
+      destruct (Hacc fuel u Hh1) as (x' & u1 & Hr & Hu1); [intros g Hg; apply Hdis; apply in_or_app; left; exact Hg|].
+      rewrite Hr. destruct (IH (out ++ [x'])%list u1 HFr Hndr (Hrest u1 Hu1) Hhr) as (out' & u' & Hf & Hu').
+      exists out', u'. split; [assumption|]. intros g Hg. cbn [flat_map]. rewrite in_app_iff.
+      destruct (Hu' g Hg) as [H1|H1]; [destruct (Hu1 g H1); auto|auto].
+    + destruct Hit as (Hws & Hacc & Hlook). unfold RefProofs.stepA at 2.
+      change (single_placeholder (placeholder (dig_item salt s))) with (Some (Some (JStr (dig_item salt s)))). cbv iota.
+      cbn [T2c.adigs_item] in Hnd1, Hdis, Hrest.
+      rewrite use_digest_fresh by (apply Hdis; left; reflexivity).
+      destruct (rlookup (dig_item salt s) T) as [r0|] eqn:El.
+      * rewrite (Hlook r0 eq_refl).
+        destruct (Hacc fuel (dig_item salt s :: u) Hh1) as (v' & u2 & Hr & Hu2).
+        { intros g Hg [Hq|Hin]; [subst g; inversion Hnd1; subst; contradiction|].
+          apply (Hdis g); [right; apply in_or_app; left; exact Hg|assumption]. }
+        rewrite Hr.
+        assert (Hu2' : forall g, In g u2 -> In g u \/ In g (dig_item salt s :: alldigs s)).
+        { intros g Hg. destruct (Hu2 g Hg) as [[<-|Hu]|Ha]; [right; left; reflexivity|left; assumption|right; right; assumption]. }
+        destruct (IH (out ++ [v'])%list u2 HFr Hndr (Hrest u2 Hu2') Hhr) as (out' & u' & Hf & Hu').
+        exists out', u'. split; [assumption|]. intros g Hg. cbn [flat_map T2c.adigs_item]. rewrite in_app_iff.
+        destruct (Hu' g Hg) as [H1|H1]; [destruct (Hu2' g H1); auto|auto].
+      * assert (Hu1 : forall g, In g (dig_item salt s :: u) -> In g u \/ In g (dig_item salt s :: alldigs s)).
+        { intros g [<-|Hg]; [right; left; reflexivity|left; assumption]. }
+        destruct (IH out (dig_item salt s :: u) HFr Hndr (Hrest _ Hu1) Hhr) as (out' & u' & Hf & Hu').
+        exists out', u'. split; [assumption|]. intros g Hg. cbn [flat_map T2c.adigs_item]. rewrite in_app_iff.
+        destruct (Hu' g Hg) as [H1|H1]; [destruct (Hu1 g H1); auto|auto].
+    + unfold RefProofs.stepA at 2.
+      change (single_placeholder (placeholder g0)) with (Some (Some (JStr g0))). cbv iota.
+      cbn [T2c.adigs_item] in Hnd1, Hdis, Hrest.
+      rewrite use_digest_fresh by (apply Hdis; left; reflexivity). rewrite Hit.
+      assert (Hu1 : forall g, In g (g0 :: u) -> In g u \/ In g [g0]).
+      { intros g [<-|Hg]; [right; left; reflexivity|left; assumption]. }
+      destruct (IH out (g0 :: u) HFr Hndr (Hrest _ Hu1) Hhr) as (out' & u' & Hf & Hu').
+      exists out', u'. split; [assumption|]. intros g Hg. cbn [flat_map T2c.adigs_item]. rewrite in_app_iff.
+      destruct (Hu' g Hg) as [H1|H1]; [destruct (Hu1 g H1); auto|auto].
+Qed.
+
+(* ---- objects: the plain members ---- *)
+Definition pdg (m : string * (mkind * atree)) : list string :=
+  let '(name, (k, s)) := m in match k with MPlain => alldigs s | _ => [] end.
+
+Lemma pdg_sub m g : In g (pdg m) -> In g (adigs_mem m).
+Proof. destruct m as [n [k s]]. destruct k; cbn; tauto. Qed.
+
+Lemma foldP_accept fuel : forall (mems : amems) out u,
+  Forall (fun m : string * (mkind * atree) => match fst (snd m) with MPlain => accept_at (snd (snd m)) /\ aheight (snd (snd m)) <= fuel | _ => True end) mems ->
+  NoDup (flat_map adigs_mem mems) -> (forall g, In g (flat_map pdg mems) -> ~ In g u) ->
+  exists out' u', fold_left (stepP fuel) (flat_map (plm H enc) mems) (Some (out, u)) = Some (out', u') /\
+                  (forall g, In g u' -> In g u \/ In g (flat_map pdg mems)) /\
+                  (forall n, In n (map fst out') -> In n (map fst out) \/ exists s, In (n, (MPlain, s)) mems).
+Proof.
+  induction mems as [|[n [k s]] r IH]; intros out u HF Hnd Hdis.
+  - exists out, u. split; [reflexivity|]. split; auto.
+  - inversion HF as [|? ? Hm HFr]; subst. cbn [flat_map] in Hnd, Hdis |- *.
+    pose proof (NoDup_app_r _ _ Hnd) as Hndr.
+    destruct k as [|salt|l]; cbn [plm pdg app] in Hdis |- *.
+    + cbn [fst snd] in Hm. destruct Hm as [Hacc Hh]. cbn [fold_left]. unfold RefProofs.stepP at 2. cbn [fst snd].
+      destruct (Hacc fuel u Hh) as (v' & u1 & Hr & Hu1); [intros g Hg; apply Hdis; apply in_or_app; left; exact Hg|].
+      rewrite Hr.
+      destruct (IH (sorted_insert n v' out) u1 HFr Hndr) as (out' & u' & Hf & Hu' & Hk').
+      { intros g Hg Hin. destruct (Hu1 g Hin) as [Hu|Ha].
+        - apply (Hdis g); [apply in_or_app; right; assumption|assumption].
+        - apply (NoDup_app_disj _ _ g Hnd Ha). apply in_flat_map in Hg as [m [Hm' Hg]]. apply in_flat_map. exists m. split; [assumption|apply pdg_sub; assumption]. }
+      exists out', u'. split; [assumption|]. split.
+      * intros g Hg. rewrite in_app_iff. destruct (Hu' g Hg) as [H1|H1]; [destruct (Hu1 g H1); auto|auto].
+      * intros n' Hn'. destruct (Hk' n' Hn') as [Hin|(s' & Hs')]; [|right; exists s'; right; assumption].
+        apply in_map_iff in Hin as [kv [Hq Hkv]]. apply sorted_insert_in in Hkv as [->|Hkv].
+        -- right. exists s. left. cbn in Hq. subst n'. reflexivity.
+        -- left. apply in_map_iff. exists kv. auto.
+    + destruct (IH out u HFr Hndr Hdis) as (out' & u' & Hf & Hu' & Hk'). exists out', u'. split; [assumption|]. split; [assumption|].
+      intros n' Hn'. destruct (Hk' n' Hn') as [|(s' & Hs')]; [left; assumption|right; exists s'; right; assumption].
+    + destruct (IH out u HFr Hndr Hdis) as (out' & u' & Hf & Hu' & Hk'). exists out', u'. split; [assumption|]. split; [assumption|].
+      intros n' Hn'. destruct (Hk' n' Hn') as [|(s' & Hs')]; [left; assumption|right; exists s'; right; assumption].
+Qed.
+
+(* ---- objects: the digest list ---- *)
+Section Dl.
+Variable mems : amems.
+Variable L : list string.
+Variable sy : atree.
+Hypothesis Hsd : In ("_sd", (MSd L, sy)) mems.
+Hypothesis Hnd : NoDup (flat_map adigs_mem mems).
+Hypothesis Hnames : NoDup (map fst mems).
+Variable U0 : list string.
+Hypothesis HU0L : forall g, In g U0 -> ~ In g L.
+Hypothesis HU0h : forall g name salt s, In g U0 -> In (name, (MHid salt, s)) mems -> ~ In g (alldigs s).
+Variable fuel : nat.
+
+Definition dig_factA (g : string) : Prop :=
+  forall r, rlookup g T = Some r ->
+    exists name salt s, In (name, (MHid salt, s)) mems /\ g = dig_mem salt name s /\ r = RMember name (blind s) /\
+                        accept_at s /\ aheight s <= fuel /\ name <> "_sd" /\ name <> "...".
+
+Definition InvU (done : list string) (u : rstate) : Prop :=
+  forall g', In g' u -> In g' U0 \/ In g' done \/
+     exists name salt s, In (name, (MHid salt, s)) mems /\ In (dig_mem salt name s) done /\ In g' (alldigs s).
+Definition InvK (done : list string) (out : list (string * json)) : Prop :=
+  forall n, In n (map fst out) -> (exists s, In (n, (MPlain, s)) mems) \/
+     exists salt s, In (n, (MHid salt, s)) mems /\ In (dig_mem salt n s) done.
+
+Lemma mem_unique n x y : In (n, x) mems -> In (n, y) mems -> x = y.
+Proof.
+  clear -Hnames. induction mems as [|[n0 z] r IH]; [intros []|]. cbn [map fst] in Hnames. inversion Hnames as [|? ? Hni Hr]; subst.
+  intros [Hx|Hx] [Hy|Hy].
+  - congruence.
+  - exfalso. injection Hx as -> _. apply Hni. apply in_map_iff. exists (n, y). auto.
+  - exfalso. injection Hy as -> _. apply Hni. apply in_map_iff. exists (n, x). auto.
+  - apply IH; assumption.
+Qed.
+
+Lemma L_vs_hidden g name salt s : In g L -> In (name, (MHid salt, s)) mems -> ~ In g (alldigs s).
+Proof.
+  intros HgL Hin Hgs.
+  assert (Hq : ("_sd", (MSd L, sy)) = (name, (MHid salt, s))) by (eapply (NoDup_flat_map_same adigs_mem); eauto).
+  discriminate.
+Qed.
+
+Lemma foldD_accept : forall l done out u,
+  NoDup (done ++ l) -> incl (done ++ l) L -> InvU done u -> InvK done out -> Forall dig_factA l ->
+  exists out' u', fold_left (stepD fuel) (map JStr l) (Some (out, u)) = Some (out', u') /\ InvU (done ++ l) u'.
+Proof.
+  induction l as [|g r IH]; intros done out u Hndl Hincl Hu Hk HF.
+  - exists out, u. split; [reflexivity|]. rewrite app_nil_r. assumption.
+  - inversion HF as [|? ? Hg HFr]; subst.
+    assert (HgL : In g L) by (apply Hincl; apply in_or_app; right; left; reflexivity).
+    assert (Hgdone : ~ In g done).
+    { intros Hin. apply NoDup_remove_2 in Hndl. apply Hndl. apply in_or_app. left. assumption. }
+    assert (Hgu : ~ In g u).
+    { intros Hin. destruct (Hu g Hin) as [H0|[Hd|(name & salt & s & Hm & _ & Hgs)]].
+      - exact (HU0L g H0 HgL).
+      - contradiction.
+      - exact (L_vs_hidden g name salt s HgL Hm Hgs). }
+    assert (Hnd' : NoDup ((done ++ [g]) ++ r)) by (rewrite <- app_assoc; exact Hndl).
+    assert (Hincl' : incl ((done ++ [g]) ++ r) L) by (rewrite <- app_assoc; exact Hincl).
+    cbn [map fold_left]. unfold RefProofs.stepD at 2. rewrite (use_digest_fresh g u Hgu).
+    destruct (rlookup g T) as [r0|] eqn:El.
+    + destruct (Hg r0 El) as (name & salt & s & Hm & Hgq & -> & Hacc & Hh & Hn1 & Hn2).
+      destruct (String.eqb_spec name "_sd"); [contradiction|]. destruct (String.eqb_spec name "..."); [contradiction|]. cbn [orb].
+      assert (Hhk : has_key name out = false).
+      { apply has_key_false. intros Hin. destruct (Hk name Hin) as [(s' & Hp)|(salt' & s' & Hm' & Hd')].
+        - pose proof (mem_unique _ _ _ Hm Hp). discriminate.
+        - pose proof (mem_unique _ _ _ Hm Hm') as Hq. injection Hq as <- <-. rewrite <- Hgq in Hd'. contradiction. }
+      rewrite Hhk.
+      destruct (Hacc fuel (g :: u) Hh) as (v' & u2 & Hr & Hu2).
+      { intros x Hx [Hq|Hin].
+        - subst x. exact (L_vs_hidden g name salt s HgL Hm Hx).
+        - destruct (Hu x Hin) as [H0|[Hd|(name' & salt' & s' & Hm' & Hd' & Hxs')]].
+          + exact (HU0h x name salt s H0 Hm Hx).
+          + apply (L_vs_hidden x name salt s); [apply Hincl; apply in_or_app; left; assumption|assumption|assumption].
+          + assert (Hq : (name', (MHid salt', s')) = (name, (MHid salt, s))).
+            { eapply (NoDup_flat_map_same adigs_mem); eauto. }
+            injection Hq as -> -> ->. rewrite <- Hgq in Hd'. contradiction. }
+      rewrite Hr.
+      destruct (IH (done ++ [g])%list (sorted_insert name v' out) u2 Hnd' Hincl') as (out' & u' & Hf & Hu'); [| |assumption|].
+      * intros x Hx. destruct (Hu2 x Hx) as [[<-|Hxu]|Hxs].
+        -- right. left. apply in_or_app. right. left. reflexivity.
+        -- destruct (Hu x Hxu) as [H0|[Hd|(name' & salt' & s' & Hm' & Hd' & Hxs')]]; [left; assumption|right; left; apply in_or_app; left; assumption|].
+           right. right. exists name', salt', s'. split; [assumption|]. split; [apply in_or_app; left; assumption|assumption].
+        -- right. right. exists name, salt, s. split; [assumption|]. split; [rewrite <- Hgq; apply in_or_app; right; left; reflexivity|assumption].
+      * intros n' Hn'. apply in_map_iff in Hn' as [kv [Hq Hkv]]. apply sorted_insert_in in Hkv as [->|Hkv].
+        -- cbn in Hq. subst n'. right. exists salt, s. split; [assumption|]. rewrite <- Hgq. apply in_or_app. right. left. reflexivity.
+        -- destruct (Hk n') as [Hp|(salt' & s' & Hm' & Hd')]; [apply in_map_iff; exists kv; auto|left; assumption|].
+           right. exists salt', s'. split; [assumption|apply in_or_app; left; assumption].
+      * exists out', u'. split; [assumption|]. rewrite <- app_assoc in Hu'. exact Hu'.
+    + destruct (IH (done ++ [g])%list out (g :: u) Hnd' Hincl') as (out' & u' & Hf & Hu'); [| |assumption|].
+      * intros x [<-|Hxu]; [right; left; apply in_or_app; right; left; reflexivity|].
+        destruct (Hu x Hxu) as [H0|[Hd|(name' & salt' & s' & Hm' & Hd' & Hxs')]]; [left; assumption|right; left; apply in_or_app; left; assumption|].
+        right. right. exists name', salt', s'. split; [assumption|]. split; [apply in_or_app; left; assumption|assumption].
+      * intros n' Hn'. destruct (Hk n' Hn') as [Hp|(salt' & s' & Hm' & Hd')]; [left; assumption|].
+        right. exists salt', s'. split; [assumption|apply in_or_app; left; assumption].
+      * exists out', u'. split; [assumption|]. rewrite <- app_assoc in Hu'. exact Hu'.
+Qed.
+End Dl.
+
+Lemma aheight_item_le items ik s fuel : aheight (AArr items) <= S fuel -> In (ik, s) items -> aheight s <= fuel.
+Proof.
+  intros Hh Hin. rewrite aheight_arr in Hh. apply le_S_n in Hh.
+  pose proof (hmax_in item_h _ _ Hin) as Hm. unfold item_h in Hm. unfold item_h in Hh. destruct ik; lia.
+Qed.
+
+Lemma aheight_mem_le mems name mk s fuel : aheight (AObj mems) <= S fuel -> In (name, (mk, s)) mems ->
+  (match mk with MSd _ => False | _ => True end) -> aheight s <= fuel.
+Proof.
+  intros Hh Hin Hmk. rewrite aheight_obj in Hh. apply le_S_n in Hh.
+  pose proof (hmax_in mem_h _ _ Hin) as Hm. unfold mem_h in Hm. unfold mem_h in Hh. destruct mk; [lia|lia|destruct Hmk].
+Qed.
+
+Theorem rprocess_accepts : forall t, wf t -> NoDup (alldigs t) -> NoDup (hdigs t) -> table_ok t -> accept_at t.
+Proof.
+  induction t as [j | items IH | mems IH] using atree_ind'; intros Hw Hnd Hndh Hok fuel used Hh Hdis.
+  - destruct fuel as [|fuel]; [cbn in Hh; lia|]. inversion Hw as [? Hsc| |]; subst. cbn [ATree.blind].
+    exists j, used. split; [destruct j; cbn in Hsc; try destruct Hsc; reflexivity|auto].
+  - destruct fuel as [|fuel]; [rewrite aheight_arr in Hh; lia|].
+    assert (Hunf : rprocess (S fuel) T (blind (AArr items)) used =
+                   match fold_left (stepA fuel) (map bitem items) (Some ([], used)) with Some (out, u) => Some (JArr out, u) | None => None end).
+    { rewrite (blind_arr H enc), rprocess_arr. reflexivity. }
+    inversion Hw as [| ? Hall Hiok |]; subst. pose proof Hnd as Hnd0. pose proof Hndh as Hndh0.
+    rewrite alldigs_arr in Hnd, Hdis. rewrite (hdigs_arr H enc) in Hndh.
+    assert (HF : Forall item_factA items).
+    { rewrite Forall_forall in IH, Hall, Hiok |- *. intros [k s] Hin. specialize (IH _ Hin). cbn in IH.
+      pose proof (Hall _ Hin) as Hws. cbn in Hws.
+      pose proof (NoDup_flat_map_in adigs_item _ _ Hnd Hin) as Hn1. pose proof (NoDup_flat_map_in hdigs_item _ _ Hndh Hin) as Hn2.
+      destruct k as [|salt|g0]; cbn [item_factA]; cbn in Hn1, Hn2.
+      + split; [assumption|]. apply IH; try assumption. eapply (table_ok_item H enc T); eauto. exact I.
+      + inversion Hn1; subst. inversion Hn2; subst.
+        split; [assumption|]. split; [apply IH; try assumption; eapply (table_ok_item H enc T); eauto; exact I|].
+        intros r Hl. destruct (Hok (dig_item salt s) r) as (k & v & Hnode & ->); [rewrite alldigs_arr; apply in_flat_map; exists (IHid salt, s); split; [assumption|left; reflexivity]|assumption|].
+        assert (Hhere : IsNode (dig_item salt s) None (blind s) (AArr items)) by (eapply in_item_here; eauto).
+        destruct (IsNode_fun H enc _ _ _ _ _ _ Hndh0 Hnode Hhere) as [-> ->]. reflexivity.
+      + destruct (rlookup g0 T) as [r|] eqn:El; [exfalso|reflexivity].
+        destruct (Hok g0 r) as (k & v & Hnode & _); [rewrite alldigs_arr; apply in_flat_map; exists (IDecoy g0, s); split; [assumption|left; reflexivity]|assumption|].
+        pose proof (IsNode_hdigs H enc _ _ _ _ Hnode) as Hhd. rewrite (hdigs_arr H enc) in Hhd. apply in_flat_map in Hhd as [it' [Hin' Hg']].
+        assert (Hga' : In g0 (adigs_item it')) by (apply (hdigs_item_adigs H enc); auto; apply (Hall _ Hin')).
+        assert (Hq : it' = (IDecoy g0, s)) by (eapply (NoDup_flat_map_same adigs_item); eauto; cbn; auto).
+        subst it'. specialize (Hiok _ Hin). cbn in Hiok. subst s. destruct Hg'. }
+    assert (Hht : Forall (fun it : ikind * atree => match fst it with IDecoy _ => True | _ => aheight (snd it) <= fuel end) items).
+    { apply Forall_forall. intros [k s] Hin. cbn. destruct k; try exact I; eapply aheight_item_le; eauto. }
+    destruct (foldA_accept fuel items [] used HF Hnd Hdis Hht) as (out & u & Hf & Hu).
+    exists (JArr out), u. split; [rewrite Hunf, Hf; reflexivity|]. intros g Hg. rewrite alldigs_arr. auto.
+  - destruct fuel as [|fuel]; [rewrite aheight_obj in Hh; lia|].
+    inversion Hw as [| | ? Hs Hall Hmok]; subst.
+    pose proof (names_ok_of_wf H enc mems Hw) as Hnames.
+    pose proof (ssorted_nodup _ Hs) as Hndn.
+    pose proof Hnd as Hnd0. pose proof Hndh as Hndh0.
+    rewrite alldigs_obj in Hnd, Hdis. rewrite (hdigs_obj H enc) in Hndh.
+    assert (Hunf : rprocess (S fuel) T (blind (AObj mems)) used =
+       match fold_left (stepP fuel) (flat_map (plm H enc) mems) (Some ([], used)) with
+       | None => None
+       | Some (out, u) =>
+           match (match msd_list mems with Some l => Some ("_sd", JArr (map JStr l)) | None => None end) with
+           | None => Some (JObj out, u)
+           | Some (_, JArr ds) => match fold_left (stepD fuel) ds (Some (out, u)) with Some (out2, u2) => Some (JObj out2, u2) | None => None end
+           | Some (_, _) => None
+           end
+       end).
+    { rewrite (blind_obj H enc), rprocess_obj, (filter_plain H enc mems Hnames), (find_sd_blind H enc mems Hnames). reflexivity. }
+    assert (Hchild : forall name mk s, In (name, (mk, s)) mems -> (match mk with MSd _ => False | _ => True end) -> accept_at s /\ aheight s <= fuel).
+    { intros name mk s Hin Hmk. split; [|eapply aheight_mem_le; eauto]. rewrite Forall_forall in IH, Hall. specialize (IH _ Hin). cbn in IH. apply IH.
+      - exact (Hall _ Hin).
+      - pose proof (NoDup_flat_map_in adigs_mem _ _ Hnd Hin) as Hn1. destruct mk; cbn in Hn1; [assumption|assumption|destruct Hmk].
+      - pose proof (NoDup_flat_map_in hdigs_mem _ _ Hndh Hin) as Hn2. destruct mk; cbn in Hn2; [assumption|inversion Hn2; assumption|destruct Hmk].
+      - eapply (table_ok_mem H enc T); eauto. }
+    assert (HFp : Forall (fun m : string * (mkind * atree) => match fst (snd m) with MPlain => accept_at (snd (snd m)) /\ aheight (snd (snd m)) <= fuel | _ => True end) mems).
+    { apply Forall_forall. intros [name [mk s]] Hin. cbn. destruct mk; try exact I. eapply Hchild; eauto. exact I. }
+    destruct (foldP_accept fuel mems [] used HFp Hnd) as (out & u & Hf1 & Hu1 & Hk1).
+    { intros g Hg. apply Hdis. apply in_flat_map in Hg as [m [Hm Hg]]. apply in_flat_map. exists m. split; [assumption|apply pdg_sub; assumption]. }
+    rewrite Hunf, Hf1.
+    destruct (msd_list mems) as [l|] eqn:Em.
+    + assert (Hsdmem : exists sy, In ("_sd", (MSd l, sy)) mems).
+      { unfold msd_list in Em. destruct (find _ mems) as [[n0 [k0 s0]]|] eqn:Efd; [|discriminate]. destruct k0; try discriminate. injection Em as ->.
+        apply find_some in Efd as [Hin _]. rewrite Forall_forall in Hnames. pose proof (Hnames _ Hin) as Hn0. unfold sd_names_ok in Hn0. cbn in Hn0. subst n0. eauto. }
+      destruct Hsdmem as [sy Hsdin].
+      set (U0 := (used ++ flat_map pdg mems)%list).
+      assert (HU0L : forall g, In g U0 -> ~ In g l).
+      { intros g Hg HgL. apply in_app_or in Hg as [Hg|Hg].
+        - apply (Hdis g); [apply in_flat_map; exists ("_sd", (MSd l, sy)); split; [assumption|exact HgL]|assumption].
+        - apply in_flat_map in Hg as [[n' [k' s']] [Hm' Hg]]. destruct k'; cbn in Hg; try destruct Hg.
+          assert (Hq : ("_sd", (MSd l, sy)) = (n', (MPlain, s'))) by (eapply (NoDup_flat_map_same adigs_mem); eauto).
+          discriminate. }
+      assert (HU0h : forall g name salt s, In g U0 -> In (name, (MHid salt, s)) mems -> ~ In g (alldigs s)).
+      { intros g name salt s Hg Hm Hgs. apply in_app_or in Hg as [Hg|Hg].
+        - apply (Hdis g); [apply in_flat_map; exists (name, (MHid salt, s)); split; [assumption|exact Hgs]|assumption].
+        - apply in_flat_map in Hg as [[n' [k' s']] [Hm' Hg]]. destruct k'; cbn in Hg; try destruct Hg.
+          assert (Hq : (name, (MHid salt, s)) = (n', (MPlain, s'))) by (eapply (NoDup_flat_map_same adigs_mem); eauto).
+          discriminate. }
+      assert (HFd : Forall (dig_factA mems fuel) l).
+      { apply Forall_forall. intros g Hg r Hl.
+        destruct (Hok g r) as (k & v & Hnode & ->); [rewrite alldigs_obj; apply in_flat_map; exists ("_sd", (MSd l, sy)); split; [assumption|exact Hg]|assumption|].
+        apply IsNode_obj_inv in Hnode as [(name & salt & s & Hin & Hgq & -> & ->)|(name' & mk' & s' & Hin' & Hn')].
+        - exists name, salt, s. split; [assumption|]. split; [assumption|]. split; [reflexivity|].
+          destruct (Hchild name (MHid salt) s Hin I) as [Hacc Hhs]. split; [assumption|]. split; [assumption|].
+          rewrite Forall_forall in Hmok. specialize (Hmok _ Hin). cbn in Hmok. tauto.
+        - exfalso. rewrite Forall_forall in Hall, Hmok.
+          assert (Hg2 : In g (adigs_mem (name', (mk', s')))).
+          { pose proof (IsNode_hdigs H enc _ _ _ _ Hn') as Hhd. pose proof (hdigs_alldigs H enc s' (Hall _ Hin') _ Hhd) as Ha.
+            destruct mk'; cbn; auto. pose proof (Hmok _ Hin') as Hm'. cbn in Hm'. destruct Hm' as (_ & _ & ->). destruct Ha. }
+          assert (Hq : (name', (mk', s')) = ("_sd", (MSd l, sy))) by (eapply (NoDup_flat_map_same adigs_mem); eauto).
+          injection Hq as _ -> ->. pose proof (Hmok _ Hsdin) as Hm'. cbn in Hm'. destruct Hm' as (_ & _ & ->). inversion Hn'. }
+      assert (Hndl : NoDup l) by (apply (NoDup_flat_map_in adigs_mem _ _ Hnd Hsdin)).
+      destruct (foldD_accept mems l sy Hsdin Hnd Hndn U0 HU0L HU0h fuel l [] out u) as (out2 & u2 & Hf2 & Hu2).
+      * exact Hndl.
+      * apply incl_refl.
+      * intros g' Hg'. left. unfold U0. apply in_or_app. destruct (Hu1 g' Hg'); auto.
+      * intros n Hn. destruct (Hk1 n Hn) as [[]|Hp]. left. assumption.
+      * assumption.
+      * rewrite Hf2. exists (JObj out2), u2. split; [reflexivity|].
+        intros g' Hg'. rewrite alldigs_obj. destruct (Hu2 g' Hg') as [H0|[Hd|(name & salt & s & Hm & _ & Hgs)]].
+        -- unfold U0 in H0. apply in_app_or in H0 as [|H0]; [left; assumption|right].
+           apply in_flat_map in H0 as [m [Hm Hg0]]. apply in_flat_map. exists m. split; [assumption|apply pdg_sub; assumption].
+        -- right. apply in_flat_map. exists ("_sd", (MSd l, sy)). split; [assumption|exact Hd].
+        -- right. apply in_flat_map. exists (name, (MHid salt, s)). split; [assumption|exact Hgs].
+    + exists (JObj out), u. split; [reflexivity|]. intros g Hg. rewrite alldigs_obj. destruct (Hu1 g Hg) as [|H1]; [left; assumption|right].
+      apply in_flat_map in H1 as [m [Hm Hg0]]. apply in_flat_map. exists m. split; [assumption|apply pdg_sub; assumption].
+Qed.
+End RA.
+
 (* ---------- ref_verify: from presented strings to the projection ---------- *)
 Require Import SDJ.Restore2 SDJ.C03Proofs.
 
@@ -625,6 +980,25 @@ Hypothesis Hwf : wf H enc t.
 Hypothesis Hnd : NoDup (alldigs H enc t).
 Hypothesis Hndh : NoDup (hdigs H enc t).
 
+Lemma rdecode_facts L T :
+  (forall s, In s L -> In (H s) (alldigs H enc t) -> In (H s) (hdigs H enc t)) ->
+  rdecode H dec L = Some T ->
+  (forall g, RT T g = ownS H L g) /\ table_ok H enc T t.
+Proof.
+  intros Hdecoy Ed. pose proof (rdecode_lookup L T Ed) as Hlk. split.
+  - intros g. unfold RT, ownS. destruct (Hlk g) as [H1 H2]. destruct (rlookup g T) as [r|] eqn:El.
+    + destruct (H1 r eq_refl) as (s & Hs & Hq & _). symmetry. apply existsb_exists. exists s. split; [assumption|]. rewrite Hq. apply String.eqb_refl.
+    + symmetry. apply not_true_is_false. intros Ht. apply existsb_exists in Ht as [s [Hs Hq]]. apply String.eqb_eq in Hq. exact (H2 eq_refl s Hs Hq).
+  - intros g r Hg Hl. destruct (Hlk g) as [H1 _]. destruct (H1 r Hl) as (s & Hs & Hq & Hparts).
+    assert (Hh : In g (hdigs H enc t)) by (rewrite <- Hq; apply Hdecoy; [assumption|rewrite Hq; assumption]).
+    destruct (hdigs_node H enc g t Hh) as (salt & k & v & Hnode & Hgq).
+    exists k, v. split; [assumption|].
+    assert (Hs' : s = enc (parts_of salt k v)) by (apply hash_inj; congruence).
+    rewrite Hs', dec_enc in Hparts. destruct r as [name v'|v']; destruct Hparts as [salt' Hp]; destruct k as [name0|]; cbn in Hp; try discriminate.
+    + injection Hp as _ <- <-. reflexivity.
+    + injection Hp as _ <-. reflexivity.
+Qed.
+
 (* C07 / C08: whenever the specification's algorithm accepts a list of presented strings for the payload of a
    conformant token, its result is the projection determined by the presented set - the same value the
    library model's restorer returns (C03Proofs) *)
@@ -633,23 +1007,25 @@ Theorem ref_verify_sound L j :
   ref_verify H dec (blind H enc t) L = Some j -> j = drop_alg (proj H enc (ownS H L) t).
 Proof.
   intros Hdecoy Hv. unfold ref_verify in Hv. destruct (rdecode H dec L) as [T|] eqn:Ed; [|discriminate].
-  pose proof (rdecode_lookup L T Ed) as Hlk.
-  assert (HRT : forall g, RT T g = ownS H L g).
-  { intros g. unfold RT, ownS. destruct (Hlk g) as [H1 H2]. destruct (rlookup g T) as [r|] eqn:El.
-    - destruct (H1 r eq_refl) as (s & Hs & Hq & _). symmetry. apply existsb_exists. exists s. split; [assumption|]. rewrite Hq. apply String.eqb_refl.
-    - symmetry. apply not_true_is_false. intros Ht. apply existsb_exists in Ht as [s [Hs Hq]]. apply String.eqb_eq in Hq. exact (H2 eq_refl s Hs Hq). }
-  assert (Hok : table_ok H enc T t).
-  { intros g r Hg Hl. destruct (Hlk g) as [H1 _]. destruct (H1 r Hl) as (s & Hs & Hq & Hparts).
-    assert (Hh : In g (hdigs H enc t)) by (rewrite <- Hq; apply Hdecoy; [assumption|rewrite Hq; assumption]).
-    destruct (hdigs_node H enc g t Hh) as (salt & k & v & Hnode & Hgq).
-    exists k, v. split; [assumption|].
-    assert (Hs' : s = enc (parts_of salt k v)) by (apply hash_inj; congruence).
-    rewrite Hs', dec_enc in Hparts. destruct r as [name v'|v']; destruct Hparts as [salt' Hp]; destruct k as [name0|]; cbn in Hp; try discriminate.
-    - injection Hp as _ <- <-. reflexivity.
-    - injection Hp as _ <-. reflexivity. }
+  destruct (rdecode_facts L T Hdecoy Ed) as [HRT Hok].
   destruct (rprocess 200 T (blind H enc t) []) as [[j' u]|] eqn:Er; [|discriminate].
   pose proof (rprocess_sound H enc T t Hwf Hnd Hndh Hok _ _ _ _ Er) as Hj. subst j'.
   rewrite (proj_ext (RT T) (ownS H L) t HRT) in Hv.
   unfold drop_alg. destruct (proj H enc (ownS H L) t); injection Hv as <-; reflexivity.
+Qed.
+
+(* ... and it does accept: every list of strings that decode as disclosures (own ones in any order and any
+   subset, foreign ones), none hashing to a decoy, on a token within the nesting limit *)
+Theorem ref_verify_complete L T :
+  (forall s, In s L -> In (H s) (alldigs H enc t) -> In (H s) (hdigs H enc t)) ->
+  rdecode H dec L = Some T -> aheight t <= 200 ->
+  ref_verify H dec (blind H enc t) L = Some (drop_alg (proj H enc (ownS H L) t)).
+Proof.
+  intros Hdecoy Ed Hh. unfold ref_verify. rewrite Ed.
+  destruct (rdecode_facts L T Hdecoy Ed) as [HRT Hok].
+  destruct (rprocess_accepts H enc T t Hwf Hnd Hndh Hok 200 [] Hh) as (j' & u & Er & _); [intros g _ []|].
+  rewrite Er. pose proof (rprocess_sound H enc T t Hwf Hnd Hndh Hok _ _ _ _ Er) as Hj. subst j'.
+  rewrite (proj_ext (RT T) (ownS H L) t HRT).
+  unfold drop_alg. destruct (proj H enc (ownS H L) t); reflexivity.
 Qed.
 End RV.
